@@ -906,6 +906,12 @@ func genProcCase(t *Tape, c01only bool) *ProcCase {
 			}
 		}
 	}
+	// the same path may be named more than once: each occurrence is read from its beginning
+	if n := len(c.Inputs); n > 0 && n < 8 && t.Chance(1, 7) {
+		if i := t.Draw(n); c.Inputs[i].Kind == "regular" {
+			c.Inputs = append(c.Inputs, c.Inputs[i])
+		}
+	}
 	if c01only {
 		return c
 	}
